@@ -1172,6 +1172,7 @@ class BitwiseAndCriterion(Criterion):
             A copy of the criterion with the tables replaced.
         """
         self.term = self.term.replace_table(current_table, new_table)
+        self.value = self.value.replace_table(current_table, new_table)
 
     def __str__(self) -> str:
         # printed on its own, this criterion has always shown its alias; inside a statement the context decides
@@ -1180,7 +1181,8 @@ class BitwiseAndCriterion(Criterion):
     def get_sql(self, ctx: SqlContext) -> str:
         sql = "({term} & {value})".format(
             term=_operand_sql(self.term, ctx.copy(with_alias=False)),
-            value=self.value,
+            # the right operand is rendered like every other operand: under the statement's context, not by str()
+            value=_operand_sql(self.value, ctx.copy(with_alias=False)),
         )
         if ctx.with_alias:
             return format_alias_sql(sql, self.alias, ctx)
